@@ -10,11 +10,12 @@
 
    Conventions.  Bytes are [list N].  Go [int] is 64 bits wide: the offsets of the DECODER are [Z] and every
    addition that can leave the int64 range is wrapped by [int64] exactly where the Go code adds
-   ([o+int(x)], [o += keyLen], [keyPos+keyLen], [internalLen += ...]); [int(x)] of a uint64 is [int_of_u64].
+   ([o += keyLen], [keyPos+keyLen], [internalLen += ...]); [int(x)] of a uint64 is [int_of_u64], [uint64(z)] of
+   an int is [u64_of_int].
    uint64 sequence arithmetic is [mod 2^64], uint32(batchLen) is [mod 2^32].  Indexing or slicing outside a
    slice is the explicit result Panic (slice expressions are checked against the LENGTH where Go checks
-   the capacity: the model panics at least as often); the decoding loop takes fuel (len(data)+1 suffices
-   whenever no length wraps: BatchProofs.decode_total).  NOT modelled: capacity and growth of the buffer
+   the capacity: the model panics at least as often); the decoding loop takes fuel (len(data)+1 always suffices:
+   BatchCutProofs.load_total).  NOT modelled: capacity and growth of the buffer
    (grow, growLimit, MakeBatch and MakeBatchWithConfig), errors of the io.Writer handed to writeBatchesWithHeader, the batch pool.
    memdb.Put draws a height (randHeight) only when it inserts a node; the heights drawn are the input list
    [hs] (Mem/MemDB.v's Put takes the height as an argument): an inserting Put consumes its head (default 1),
@@ -32,6 +33,8 @@ Definition int_of_u64 (x : N) : Z := int64 (Z.of_N x).
 Definition u64 (x : N) : N := x mod 18446744073709551616.
 Definition u32 (x : N) : N := x mod 4294967296.
 Definition zlen (l : bytes) : Z := Z.of_N (lenN l).
+(* uint64(z) of an int *)
+Definition u64_of_int (z : Z) : N := Z.to_N (z mod two64).
 
 (* data[o] *)
 Definition zget (data : bytes) (o : Z) : option N :=
@@ -122,7 +125,65 @@ Section Batch.
     mkbatch (b_data b ++ b_data q) (b_index b ++ map shift (b_index q)) (b_ilen b + b_ilen q)%Z.
 
   (* ------------------------------------------------------------------ decodeBatch *)
+  (* the bounds tests are "n <= 0 || x > uint64(len(data)-o)" (since fix d912a49): the length field is compared
+     as a uint64 with the bytes that remain, nothing is added before the test *)
   Fixpoint decode_loop {A} (fuel : nat) (data : bytes) (fn : A -> Z -> bidx -> cbres A)
+           (i o : Z) (a : A) : dres A :=
+    match fuel with
+    | O => DFuel
+    | S f =>
+        if (o <? zlen data)%Z then
+          match zget data o with                                   (* keyType(data[o]) *)
+          | None => DPanic
+          | Some kt =>
+              if keyTypeVal p <? kt then DErr (EBadType kt) a else
+              let o1 := (o + 1)%Z in
+              match zdrop data o1 with                             (* data[o:] *)
+              | None => DPanic
+              | Some rest =>
+                  match uvarint rest with
+                  | UvShort | UvOver _ => DErr EKeyLen a           (* n <= 0 *)
+                  | UvOk x n =>
+                      let o2 := (o1 + Z.of_N n)%Z in
+                      if u64_of_int (zlen data - o2) <? x then DErr EKeyLen a else
+                      let kl := int_of_u64 x in
+                      let o3 := int64 (o2 + kl) in                 (* o += keyLen *)
+                      if kt =? keyTypeVal p then
+                        match zdrop data o3 with
+                        | None => DPanic
+                        | Some rest2 =>
+                            match uvarint rest2 with
+                            | UvShort | UvOver _ => DErr EValLen a
+                            | UvOk y m =>
+                                let o4 := (o3 + Z.of_N m)%Z in
+                                if u64_of_int (zlen data - o4) <? y then DErr EValLen a else
+                                let vl := int_of_u64 y in
+                                let o5 := int64 (o4 + vl) in
+                                match fn a i (mkidx kt o2 kl o4 vl) with
+                                | CbOk a' => decode_loop f data fn (i + 1)%Z o5 a'
+                                | CbErr e a' => DErr e a'
+                                | CbPanic => DPanic
+                                | CbFuel => DFuel
+                                end
+                            end
+                        end
+                      else
+                        match fn a i (mkidx kt o2 kl 0%Z 0%Z) with
+                        | CbOk a' => decode_loop f data fn (i + 1)%Z o3 a'
+                        | CbErr e a' => DErr e a'
+                        | CbPanic => DPanic
+                        | CbFuel => DFuel
+                        end
+                  end
+              end
+          end
+        else DOk a
+    end.
+
+  (* ---- decodeBatch BEFORE fix d912a49 (bounds tests "n <= 0 || o+int(x) > len(data)": the length field was
+     converted to int and added to the offset first, which wraps).  Kept only as the witness of the pre-fix
+     behaviour (Props/C01.v C01_batch_decode_total_refuted); nothing else uses it. *)
+  Fixpoint decode_loop_old {A} (fuel : nat) (data : bytes) (fn : A -> Z -> bidx -> cbres A)
            (i o : Z) (a : A) : dres A :=
     match fuel with
     | O => DFuel
@@ -155,7 +216,7 @@ Section Batch.
                                 let o5 := int64 (o4 + vl) in
                                 if (zlen data <? o5)%Z then DErr EValLen a else
                                 match fn a i (mkidx kt o2 kl o4 vl) with
-                                | CbOk a' => decode_loop f data fn (i + 1)%Z o5 a'
+                                | CbOk a' => decode_loop_old f data fn (i + 1)%Z o5 a'
                                 | CbErr e a' => DErr e a'
                                 | CbPanic => DPanic
                                 | CbFuel => DFuel
@@ -164,7 +225,7 @@ Section Batch.
                         end
                       else
                         match fn a i (mkidx kt o2 kl 0%Z 0%Z) with
-                        | CbOk a' => decode_loop f data fn (i + 1)%Z o3 a'
+                        | CbOk a' => decode_loop_old f data fn (i + 1)%Z o3 a'
                         | CbErr e a' => DErr e a'
                         | CbPanic => DPanic
                         | CbFuel => DFuel
@@ -190,6 +251,9 @@ Section Batch.
     | r => r
     end.
   Definition batch_load (data : bytes) : dres batch := batch_decode data (-1)%Z.
+  (* Batch.Load before fix d912a49 (witness only) *)
+  Definition batch_load_old (data : bytes) : dres batch :=
+    decode_loop_old (decode_fuel data) data decode_cb 0%Z 0%Z (mkbatch data [] 0%Z).
 
   (* batchIndex.k / batchIndex.v *)
   Definition idx_k (data : bytes) (ix : bidx) : option bytes :=
